@@ -260,9 +260,21 @@ def jetexpand_ode_doubling_unroll(
 
         double = jetexpand_ode_coefficient_double()
         (u0,) = inits  # This asserts ODEs are first-order only. High order is a todo
-        taylor_coefficients = [u0]
+
+        # Append time as a state with unit velocity; otherwise the recursion
+        # misses the explicit time-dependence of the vector field.
+        @problems.ode
+        def vf_autonomous(y, /, *, t):
+            del t
+            u, t_ = np.reshape(y[:-1], u0.shape), y[-1]
+            [fu] = vf.vector_field(jet_coords=(u,), t=t_)
+            return np.concatenate([np.reshape(fu, (-1,)), np.ones_like(y[-1:])])
+
+        t0 = np.asarray(t, dtype=u0.dtype)
+        taylor_coefficients = [np.concatenate([np.reshape(u0, (-1,)), t0[None]])]
         for _ in range(num_doublings):
-            taylor_coefficients, _ = double(vf, taylor_coefficients, t=t)
+            taylor_coefficients, _ = double(vf_autonomous, taylor_coefficients, t=t)
+        taylor_coefficients = [np.reshape(c[:-1], u0.shape) for c in taylor_coefficients]
         return _apply_factorial_scaling(*taylor_coefficients), {}
 
     return expand
